@@ -1055,6 +1055,7 @@ class TokenizerCore:
             elif token_type == TokenType.BIT_STRING:
                 base = 2
             elif token_type == TokenType.HEREDOC_STRING:
+                line, col = self._line, self._col
                 self._advance()
 
                 if self._char == end:
@@ -1075,6 +1076,8 @@ class TokenizerCore:
                         self._advance(-1)
 
                     self._advance(-len(tag))
+                    # the rewind may have crossed line breaks, which _advance(-n) does not undo
+                    self._line, self._col = line, col + self._current - 1 - self._start
                     self._add(self.heredoc_string_alternative)
                     return True
 
